@@ -197,7 +197,140 @@ fn locality(o1: &str, o2: &str, x1: Option<(usize, usize)>, x2: Option<(usize, u
     Ok(())
 }
 
+/// remove one optional keyword child (ECU_ADDRESS, FORMAT, ...) of a MEASUREMENT or CHARACTERISTIC:
+/// every token outside the removed keyword and its parameters must still be a token of the output,
+/// in the same order (token conservation; the line-wise judgement is left to the other edit kinds
+/// because the removed element may share its line with neighbours)
+fn remove_child_case(rng: &mut Rng, rec: &mut Recorder, a2l: &A2lFile, o1: &str, input: &str) {
+    let Ok(t1) = lex(o1) else { return };
+    let mut m = a2l.clone();
+    let module = &mut m.project.module[0];
+    // (keyword, number of parameter tokens)
+    let mut removed: Option<(&'static str, usize)> = None;
+    macro_rules! try_remove {
+        ($obj:expr, $( $field:ident => $kw:expr, $n:expr );* $(;)?) => {{
+            let mut present: Vec<usize> = Vec::new();
+            let mut idx = 0usize;
+            $( if $obj.$field.is_some() { present.push(idx); } idx += 1; )*
+            let _ = idx;
+            if !present.is_empty() {
+                let pick = present[rng.below(present.len())];
+                let mut idx = 0usize;
+                $( if idx == pick { $obj.$field = None; removed = Some(($kw, $n)); } idx += 1; )*
+                let _ = idx;
+            }
+        }};
+    }
+    let (kind, name) = if rng.coin() && !module.measurement.is_empty() {
+        let i = rng.below(module.measurement.len());
+        let name = module.measurement[i].get_name().to_string();
+        if module.measurement.iter().filter(|x| x.get_name() == name).count() > 1 {
+            rec.bump("edit.skipped_duplicate_name");
+            return;
+        }
+        let o = &mut module.measurement[i];
+        try_remove!(o,
+            ecu_address => "ECU_ADDRESS", 1; ecu_address_extension => "ECU_ADDRESS_EXTENSION", 1;
+            bit_mask => "BIT_MASK", 1; format => "FORMAT", 1; display_identifier => "DISPLAY_IDENTIFIER", 1;
+            byte_order => "BYTE_ORDER", 1; phys_unit => "PHYS_UNIT", 1; max_refresh => "MAX_REFRESH", 2;
+            error_mask => "ERROR_MASK", 1; array_size => "ARRAY_SIZE", 1; layout => "LAYOUT", 1;
+            read_write => "READ_WRITE", 0; discrete => "DISCRETE", 0; ref_memory_segment => "REF_MEMORY_SEGMENT", 1;
+            model_link => "MODEL_LINK", 1; address_type => "ADDRESS_TYPE", 1; symbol_link => "SYMBOL_LINK", 2;
+        );
+        ("MEASUREMENT", name)
+    } else if !module.characteristic.is_empty() {
+        let i = rng.below(module.characteristic.len());
+        let name = module.characteristic[i].get_name().to_string();
+        if module.characteristic.iter().filter(|x| x.get_name() == name).count() > 1 {
+            rec.bump("edit.skipped_duplicate_name");
+            return;
+        }
+        let o = &mut module.characteristic[i];
+        try_remove!(o,
+            bit_mask => "BIT_MASK", 1; format => "FORMAT", 1; display_identifier => "DISPLAY_IDENTIFIER", 1;
+            byte_order => "BYTE_ORDER", 1; phys_unit => "PHYS_UNIT", 1; max_refresh => "MAX_REFRESH", 2;
+            ecu_address_extension => "ECU_ADDRESS_EXTENSION", 1; number => "NUMBER", 1; step_size => "STEP_SIZE", 1;
+            read_only => "READ_ONLY", 0; discrete => "DISCRETE", 0; guard_rails => "GUARD_RAILS", 0;
+            ref_memory_segment => "REF_MEMORY_SEGMENT", 1; model_link => "MODEL_LINK", 1;
+            calibration_access => "CALIBRATION_ACCESS", 1; comparison_quantity => "COMPARISON_QUANTITY", 1;
+            extended_limits => "EXTENDED_LIMITS", 2; symbol_link => "SYMBOL_LINK", 2; encoding => "ENCODING", 1;
+        );
+        ("CHARACTERISTIC", name)
+    } else {
+        return;
+    };
+    let Some((kw, nparams)) = removed else { return };
+    let Some((a, b)) = find_block(&t1, kind, &name) else { return };
+    // the keyword at nesting depth 1 of the block; it must be there exactly once
+    let mut depth = 0;
+    let mut hits = Vec::new();
+    for i in a..=b.min(t1.len() - 1) {
+        match t1[i].kind {
+            LK::Begin => depth += 1,
+            LK::End => depth -= 1,
+            LK::Word if depth == 1 && i > a + 2 && t1[i].text == kw && t1[i - 1].kind != LK::Begin && t1[i - 1].kind != LK::End => {
+                hits.push(i)
+            }
+            _ => {}
+        }
+    }
+    if hits.len() != 1 {
+        rec.bump("edit.skipped_keyword_not_unique");
+        return;
+    }
+    let k = hits[0];
+    let o2 = match write(&m) {
+        Ok(o) => o,
+        Err((sig, detail)) => {
+            rec.violation(&sig, &detail, witness_text("C05 edit", input, "remove_child"));
+            return;
+        }
+    };
+    rec.eval();
+    rec.bump("edit.remove_child");
+    rec.bump(&format!("edit.remove_child.{kw}"));
+    let t2 = match lex(&o2) {
+        Ok(t) => t,
+        Err(e) => {
+            rec.violation(
+                "edit locality violated (remove_child): output is not lexable",
+                &e,
+                witness_text("C05 edit", input, &format!("remove_child {kind} {name} {kw}")),
+            );
+            return;
+        }
+    };
+    let expected: Vec<&LTok> = t1.iter().enumerate().filter(|(i, _)| *i < k || *i > k + nparams).map(|(_, t)| t).collect();
+    let mut problem = None;
+    if expected.len() != t2.len() {
+        problem = Some(format!("{} tokens expected outside the removed element, the output has {}", expected.len(), t2.len()));
+    }
+    for (u, v) in expected.iter().zip(t2.iter()) {
+        if u.kind != v.kind || u.text != v.text {
+            problem = Some(format!(
+                "token outside the removed element changed: `{}` (line {}) became `{}` (line {})",
+                clip(&u.text, 60),
+                u.line,
+                clip(&v.text, 60),
+                v.line
+            ));
+            break;
+        }
+    }
+    if let Some(msg) = problem {
+        rec.violation(
+            "edit locality violated (remove_child)",
+            &format!("removed {kw} from {kind} {name}: {msg}"),
+            witness_text("C05 edit", input, &format!("remove_child {kind} {name} {kw}")),
+        );
+    }
+}
+
 fn edit_case(rng: &mut Rng, rec: &mut Recorder, a2l: &A2lFile, o1: &str, input: &str) {
+    if rng.chance(1, 4) {
+        remove_child_case(rng, rec, a2l, o1, input);
+        return;
+    }
     let t1 = match lex(o1) {
         Ok(t) => t,
         Err(_) => return,
@@ -447,6 +580,7 @@ pub fn run(args: &Args, rec: &mut Recorder) {
     rec.floor("mode.canonical", 5);
     rec.floor("mode.c05", 5);
     rec.floor("edit.field_edit", 5);
+    rec.floor("edit.remove_child", 5);
     rec.floor("edit.push", 5);
     rec.floor("edit.remove", 5);
     for e in &g.elements {
